@@ -340,13 +340,56 @@ func c30(p *an.Prog, r *an.R, tier string) {
 						r.OK("C30.R6", key, as.Pos(), "the item is known to be off the heap here")
 						continue
 					}
+					// a helper of the queue that is handed the item and, on every path where the item is on the
+					// heap, fixes or removes it before returning
+					helperReorders := func(c *ast.CallExpr) bool {
+						for j := range fns {
+							fj := &fns[j]
+							if an.Callee(info, c) != fj.fn {
+								continue
+							}
+							hsig := fj.fn.Type().(*types.Signature)
+							for ai, a := range c.Args {
+								if itemOfArg(a) != item || ai >= hsig.Params().Len() {
+									continue
+								}
+								hp := types.Object(hsig.Params().At(ai))
+								hg := graph(fj)
+								hre := func(k an.Loc) bool {
+									for _, hc := range an.CallsTo(info, hg.Node(k), false, hFix, hRemove, hPush) {
+										if itemOfArg(hc.Args[1]) == hp {
+											return true
+										}
+									}
+									return false
+								}
+								staleInHelper := hg.Reach(hg.Entry(), false, &an.Search{ExitIsTarget: true, Cut: hre, CutEdge: func(b *cfg.Block, k int) bool {
+									return hg.EdgeImplies(b, k, func(atom ast.Expr, truth bool) bool {
+										isT, onTrue := idxCond(atom, hp)
+										return isT && onTrue != truth
+									})
+								}})
+								if !staleInHelper {
+									return true
+								}
+							}
+						}
+						return false
+					}
 					reorders := func(k an.Loc) bool {
 						for _, c := range an.CallsTo(info, g.Node(k), false, hFix, hRemove, hPush) {
 							if itemOfArg(c.Args[1]) == item {
 								return true
 							}
 						}
-						return false
+						hit := false
+						an.Inspect(g.Node(k), false, func(m ast.Node) bool {
+							if c, ok := m.(*ast.CallExpr); ok && helperReorders(c) {
+								hit = true
+							}
+							return true
+						})
+						return hit
 					}
 					stale := g.Reach(l, true, &an.Search{ExitIsTarget: true, Cut: reorders, CutEdge: func(b *cfg.Block, k int) bool {
 						// cut the edge on which the item is known off the heap
